@@ -364,3 +364,33 @@ Definition gnu_vmax (sizeT : Z) : Z := Z.min ((2 ^ 63 - 1) / sizeT) (max_size si
 Definition gnu_grow (sizeT : Z) (size extra : Z) : Z :=
   let len := size + Z.max size extra in
   if gnu_vmax sizeT <? len then gnu_vmax sizeT else len.
+
+(* ------------------------------------------------ specification vocabulary
+   (used by the statements in Properties.v; nothing below is executed) *)
+
+(* contract of the external allocator (scalable_aligned_malloc / _mm_malloc):
+   a returned block is non-null, lies inside the address space, is a multiple
+   of the requested alignment and overlaps no live block.  It is a hypothesis of
+   the theorems, measured on the real back ends by the differential run. *)
+Definition be_contract {ost : Type}
+    (be_malloc : ost -> heap -> Z -> Z -> option Z * ost) : Prop :=
+  forall st live size align p st',
+    be_malloc st live size align = (Some p, st') ->
+    0 < p /\ p + Z.max 1 size <= W /\ (0 < align -> (align | p)) /\
+    fresh live p size = true.
+
+(* heap integrity: live blocks are non-null and pairwise disjoint *)
+Fixpoint heap_wf (live : heap) : Prop :=
+  match live with
+  | [] => True
+  | b :: t => b_addr b <> 0 /\ forallb (disjointb b) t = true /\ heap_wf t
+  end.
+
+Definition in_block (b : block) (a : Z) : Prop := b_addr b <= a < b_end b.
+
+(* data() of a vector: null or a multiple of 64 *)
+Definition aligned64 (v : vec) : Prop := v_data v = 0 \/ (64 | v_data v).
+
+(* the growth policy of std::vector never returns less than what is needed *)
+Definition grow_ok (vmax : Z) (grow : Z -> Z -> Z) : Prop :=
+  forall s e, 0 <= s -> 0 < e -> s + e <= vmax -> s + e <= grow s e.
